@@ -44,6 +44,35 @@ def install_models(P):
     P.np = models.NpProxy(dict(select=models.select_model, all=models.all_model))
 
 
+
+def input_form_mismatches(gamma):
+    """eval on integer parameters given in different forms (Python int, NumPy integer scalar, integer-dtype array,
+    float array) against the piece that contains the parameter, evaluated on a float.  Returns [(form, k, got, want)]
+    as exact rationals of the doubles."""
+    starts = [float(v) for v in gamma.pw_start]
+    ks = list(range(0, int(np.floor(starts[-1])) + 1))
+    want = {}
+    for k in ks:
+        i = max(j for j in range(len(gamma.pw_gamma)) if starts[j] <= k)
+        i = min(i, len(gamma.pw_gamma) - 1)
+        want[k] = [Fraction(float(v)) for v in np.asarray(gamma.pw_gamma[i](float(k))).flatten()]
+    out = []
+    forms = dict(int_array=lambda: np.asarray(gamma.eval(np.array(ks, dtype=int))),
+                 float_array=lambda: np.asarray(gamma.eval(np.array(ks, dtype=float))),
+                 python_int=lambda: np.hstack([np.asarray(gamma.eval(int(k))).reshape(2, -1) for k in ks]),
+                 numpy_int=lambda: np.hstack([np.asarray(gamma.eval(np.int64(k))).reshape(2, -1) for k in ks]))
+    for form, fn in forms.items():
+        try:
+            val = np.asarray(fn(), dtype=float).reshape(2, -1)
+        except Exception as e:
+            out.append((form, None, repr(e), None))
+            continue
+        for col, k in enumerate(ks):
+            got = [Fraction(float(v)) for v in val[:, col]]
+            out.append((form, k, got, want[k]))
+    return out
+
+
 # -- (a) curves ---------------------------------------------------------------------------------------
 def curve_worker(name):
     P, M = load()
@@ -88,6 +117,30 @@ def curve_worker(name):
         if gamma.closed:
             ground(close(gamma.pw_gamma[-1](Lg), gamma.pw_gamma[0](0)), 'closed',
                    'curve declared closed but eval(L) != eval(0)', dict(kind='closed', curve=name))
+    # the same points whatever numeric form the parameter comes in (ground facts on the doubles, real NumPy)
+    if polygon:
+        P.np = np
+        try:
+            rows = input_form_mismatches(gamma)
+        finally:
+            install_models(P)
+        flagged = set()
+        for form, k, got, want in rows:
+            if form in flagged:
+                continue
+            if k is None:
+                flagged.add(form)
+                viol('eval-form', 'eval raises %s for integer parameters given as %s' % (got, form),
+                     dict(kind='eval-form', curve=name, form=form))
+                continue
+            res['evaluations'] += 1
+            ok, _ = eng.prove(z3.And([z3bool(abs(SR.const(a) - SR.const(b)) <= TOL * 10) for a, b in zip(got, want)]),
+                              'eval-form')
+            if not ok:
+                flagged.add(form)
+                viol('eval-form', 'eval(%d) given as %s is (%s) instead of the point (%s) of its piece' %
+                     (k, form, ', '.join('%.12g' % float(v) for v in got), ', '.join('%.12g' % float(v) for v in want)),
+                     dict(kind='eval-form', curve=name, form=form))
     # symbolic parameter(s)
     if polygon:
         for i in range(len(gamma.pw_gamma)):
@@ -341,6 +394,11 @@ def replay(rp):
         except Exception:
             return True
         return not np.allclose(v, gamma.pw_gamma[rp['piece']](x), rtol=0, atol=1e-9)
+    if kind == 'eval-form':
+        for form, k, got, want in input_form_mismatches(gamma):
+            if form == rp['form'] and (k is None or any(abs(float(a) - float(b)) > 1e-9 for a, b in zip(got, want))):
+                return True
+        return False
     if kind == 'piece-length':
         i = rp['piece']
         a, b = gamma.pw_start[i], gamma.pw_start[i + 1]
